@@ -135,6 +135,7 @@ class Ctx:
         self.excluded = 0
         self.extra = {}
         self.inconclusive = []
+        self.noise = False
         self._sample_every = 1
         self._sample_seen = 0
 
@@ -291,6 +292,10 @@ def run_property(ctx, strategy, body, max_examples, tag="", shrink_budget_s=None
     def wrapped(case):
         if rec.expired():
             return
+        if ctx.noise:
+            from vlib import noise
+
+            noise.step()
         try:
             body(case)
         except PropertyViolation as v:
@@ -399,6 +404,16 @@ def _worker(args):
     try:
         mod = importlib.import_module(modname)
         reset_globals()
+        owner = importlib.import_module("checks." + prop.lower())
+        if getattr(owner, "NOISE", True):
+            # observations a check wants from a process in which nothing has happened yet
+            hook = getattr(owner, "before_noise", None)
+            if hook:
+                hook()
+            from vlib import noise
+
+            ctx.extra["noise_ops_at_start"] = noise.all_once()
+            ctx.noise = True
         mod.run_shard(ctx, desc)
         out = ctx.dump()
         out["error"] = None
